@@ -30,7 +30,7 @@ func (e gsm7Encoder) Transform(dst, src []byte, atEOF bool) (nDst, nSrc int, err
 
 func packSeptets(dst []byte, septets []byte) {
 	var index int
-	var bit, item byte
+	var bit byte
 	pack := func(c byte) {
 		for i := 0; i < 7; i++ {
 			dst[index] |= c >> i & 1 << bit
@@ -42,13 +42,9 @@ func packSeptets(dst []byte, septets []byte) {
 		}
 	}
 	for _, c := range septets {
-		item = c
 		pack(c)
 	}
 	if 8-bit == 7 {
-		pack(cr)
-	} else if bit == 0 && item == cr {
-		dst[index] = 0x00
 		pack(cr)
 	}
 }
